@@ -654,16 +654,27 @@ impl VisitMut for Norm {
                     let pat = f.pat.clone();
                     let body_stmts = f.body.stmts.clone();
                     let keys_fn = Ident::new(&keys_fn, sp);
-                    let getter = Ident::new(&getter, sp);
                     let kv = self.fresh("keys");
                     let k = self.fresh("k");
-                    let ne: Expr = parse_quote!({
-                        let #kv = #keys_fn(&*#recv);
-                        for #k in #kv.iter() {
-                            let #pat = #recv.#getter(*#k);
-                            #(#body_stmts)*
-                        }
-                    });
+                    let ne: Expr = if let Some(fname) = getter.strip_prefix("fn.") {
+                        let g = Ident::new(fname, sp);
+                        parse_quote!({
+                            let #kv = #keys_fn(&#recv);
+                            for #k in #kv.iter() {
+                                let #pat = #g(&mut #recv, *#k);
+                                #(#body_stmts)*
+                            }
+                        })
+                    } else {
+                        let getter = Ident::new(&getter, sp);
+                        parse_quote!({
+                            let #kv = #keys_fn(&*#recv);
+                            for #k in #kv.iter() {
+                                let #pat = #recv.#getter(*#k);
+                                #(#body_stmts)*
+                            }
+                        })
+                    };
                     *e = ne;
                     self.log("N8e-keyed-mut-iteration", sp);
                     return;
@@ -887,6 +898,20 @@ impl VisitMut for Norm {
                                 let ne: Expr = parse_quote!(hq_map_push(&mut #m, #k, #x));
                                 *e = ne;
                                 self.log("N8g-entry-or_default-push", sp);
+                            }
+                        }
+                    }
+                    "unwrap_or" if mc.args.len() == 1 && matches!(&*mc.receiver, Expr::MethodCall(m) if m.method == "map" && m.args.len() == 1 && matches!(&m.args[0], Expr::Closure(c) if c.inputs.len() == 1)) => {
+                        // N7d: OPT.map(|p| B).unwrap_or(D) => match OPT { Some(p) => B, None => D }
+                        if let Expr::MethodCall(m) = &*mc.receiver {
+                            if let Expr::Closure(c) = &m.args[0] {
+                                let opt = &m.receiver;
+                                let pat = match &c.inputs[0] { Pat::Type(pt) => (*pt.pat).clone(), p => p.clone() };
+                                let body = &c.body;
+                                let d = &mc.args[0];
+                                let ne: Expr = parse_quote!(match #opt { Some(#pat) => #body, None => #d });
+                                *e = ne;
+                                self.log("N7d-option-map-unwrap_or", sp);
                             }
                         }
                     }
@@ -1218,6 +1243,32 @@ fn body_has_return(e: &Expr) -> bool {
     let mut v = V(false);
     syn::visit::Visit::visit_expr(&mut v, e);
     v.0
+}
+
+/// N11 (nested): the first statement, at any depth, whose token text starts with `anchor`
+pub fn find_stmt(b: &Block, anchor: &str) -> Option<Stmt> {
+    let norm = |s: &str| s.chars().filter(|c| !c.is_whitespace()).collect::<String>();
+    let a = norm(anchor);
+    struct V {
+        a: String,
+        found: Option<Stmt>,
+    }
+    impl<'ast> syn::visit::Visit<'ast> for V {
+        fn visit_stmt(&mut self, st: &'ast Stmt) {
+            if self.found.is_some() {
+                return;
+            }
+            let t: String = st.to_token_stream().to_string().chars().filter(|c| !c.is_whitespace()).collect();
+            if t.starts_with(&self.a) {
+                self.found = Some(st.clone());
+                return;
+            }
+            syn::visit::visit_stmt(self, st);
+        }
+    }
+    let mut v = V { a, found: None };
+    syn::visit::Visit::visit_block(&mut v, b);
+    v.found
 }
 
 /// N11: keep a contiguous statement range of the top-level block, named by two anchor strings
